@@ -289,6 +289,191 @@ theorem C20_head_suffix_regression :
     headField false "kernel_fc_activation" "kernel_fc" = ("activation", -1) ∧
     headField false "fc_bias_x_activation" "fc_bias_x" = ("activation", -1) := by decide
 
+/-! ## 5b. the limit the hyper-model works with is the DOCUMENTED completion of the user's dictionary
+
+Sections 1–5 are relative to `env.limit`, the dictionary `_get_quantizer` reads — i.e. the one the
+constructor left in `self.limit`.  The statements below close the gap to the dictionary the USER wrote:
+`_adjust_limit` fills a missing slot with the default of THAT tensor role (weight, bias, recurrent,
+activation), never with another role's. -/
+
+/-- the slices `limit[name] + default[length:2] + default[-1:]` / `+ default[length:]` are the
+    role-wise completion `docEntry`, for every normalised default (3 or 4 entries), every class name
+    and every user list -/
+theorem C20_adjust_entry_documented (d : List LimVal) (hd : d.length = 3 ∨ d.length = 4)
+    (name : String) (l : List LimVal) (e : LimEntry) (h : adjustEntry d name (.vals l) = .ok e) :
+    e = .vals (docEntry d name l) :=
+  adjustEntry_doc hd h
+
+/-- role by role.  Non-recurrent class with fewer than 3 values: three slots, weight and bias from the
+    user or the weight / bias default, and the slot `_get_quantizer` reads for activations
+    (index −1) is the ACTIVATION default — the last entry of the default list, never its recurrent
+    entry.  Recurrent class with fewer than 4 values (4-entry default): four slots, the third one from
+    the recurrent default. -/
+theorem C20_adjust_roles (d : List LimVal) (hd : d.length = 3 ∨ d.length = 4) (name : String)
+    (l : List LimVal) :
+    (name ∉ SEQUENCE → l.length < 3 →
+       (docEntry d name l).length = 3 ∧
+       pyIndex (docEntry d name l) 0 = slotOr l 0 (defWeight d) ∧
+       pyIndex (docEntry d name l) 1 = slotOr l 1 (defBias d) ∧
+       pyIndex (docEntry d name l) (-1) = defActivation d) ∧
+    (name ∈ SEQUENCE → l.length < 4 → d.length = 4 →
+       (docEntry d name l).length = 4 ∧
+       pyIndex (docEntry d name l) 0 = slotOr l 0 (defWeight d) ∧
+       pyIndex (docEntry d name l) 1 = slotOr l 1 (defBias d) ∧
+       pyIndex (docEntry d name l) 2 = slotOr l 2 (defRecurrent d) ∧
+       pyIndex (docEntry d name l) (-1) = slotOr l 3 (defActivation d)) := by
+  constructor
+  · intro hs hl
+    unfold docEntry
+    simp only [hs, if_false, hl, if_true]
+    rcases hd with hd | hd
+    · rcases d with _ | ⟨a, _ | ⟨b, _ | ⟨c, _ | ⟨e4, t⟩⟩⟩⟩ <;> simp at hd
+      rcases l with _ | ⟨x, _ | ⟨y, _ | ⟨z, t'⟩⟩⟩ <;>
+        first
+        | (exfalso; simp only [List.length_cons] at hl; omega)
+        | (simp [slotOr, defWeight, defBias, defActivation, pyIndex])
+    · rcases d with _ | ⟨a, _ | ⟨b, _ | ⟨c, _ | ⟨e4, _ | ⟨f, t⟩⟩⟩⟩⟩ <;> simp at hd
+      rcases l with _ | ⟨x, _ | ⟨y, _ | ⟨z, t'⟩⟩⟩ <;>
+        first
+        | (exfalso; simp only [List.length_cons] at hl; omega)
+        | (simp [slotOr, defWeight, defBias, defActivation, pyIndex])
+  · intro hs hl h4
+    unfold docEntry
+    simp only [hs, if_true, hl]
+    rcases d with _ | ⟨a, _ | ⟨b, _ | ⟨c, _ | ⟨e4, _ | ⟨f, t⟩⟩⟩⟩⟩ <;> simp at h4
+    rcases l with _ | ⟨x, _ | ⟨y, _ | ⟨z, _ | ⟨u, t'⟩⟩⟩⟩ <;>
+      first
+      | (exfalso; simp only [List.length_cons] at hl; omega)
+      | (simp [slotOr, defWeight, defBias, defRecurrent, defActivation, pyIndex])
+
+/-- the whole constructor: same keys in the same order; keys that are no registered class (patterns,
+    "Activation", "default", …) keep their value; a registered class carries the documented entry -/
+theorem C20_adjust_limit_documented (U L : Limit) (h : adjustLimit U = .ok L) :
+    ∃ d, normDefault (alookup "default" U) = .ok d ∧ (d.length = 3 ∨ d.length = 4) ∧
+      limKeys L = limKeys U ∧
+      (∀ k, k ∉ REGISTERED → alookup k L = alookup k U) ∧
+      (∀ k, k ∈ REGISTERED → alookup k U = none → alookup k L = none) ∧
+      (∀ k e, k ∈ REGISTERED → alookup k U = some e →
+         ∃ l, e = .vals l ∧ alookup k L = some (.vals (docEntry d k l))) := by
+  unfold adjustLimit at h
+  cases hd : normDefault (alookup "default" U) with
+  | error err => rw [hd] at h; cases h
+  | ok d =>
+    rw [hd] at h
+    dsimp only at h
+    have hlen := normDefault_length hd
+    obtain ⟨h1, h2, h3, h4⟩ := adjustLoop_spec (by decide : REGISTERED.Nodup) h
+    refine ⟨d, rfl, hlen, h1, h2, h4, ?_⟩
+    intro k e hk he
+    obtain ⟨e', ha, hL⟩ := h3 k e hk he
+    cases e with
+    | scalar n => simp [adjustEntry] at ha
+    | vals l => exact ⟨l, rfl, by rw [hL, adjustEntry_doc hlen ha]⟩
+
+/-- **Within the limit the user SET.**  Constructor + `quantize_model`, all tuner oracles: every
+    quantizer string of the dictionary handed to `model_quantize` is admitted (`EntryOK`) under the
+    completed dictionary `L`, and `L` is the documented completion of the user's dictionary
+    (`C20_adjust_limit_documented`). -/
+theorem C20_model_within_user_limit (env : Env) (tn : Tune) (layers : List Layer) (L : Limit)
+    (o : QmOut) (h : quantizeModelUser env tn layers = .ok (L, o)) :
+    adjustLimit env.limit = .ok L ∧
+      ∀ x ∈ o.qdict, EntryOK { env with limit := L } layers x.1 x.2 := by
+  unfold quantizeModelUser at h
+  cases ha : adjustLimit env.limit with
+  | error e => rw [ha] at h; cases h
+  | ok lim =>
+    rw [ha] at h
+    dsimp only at h
+    cases hq : quantizeModel { env with limit := lim } tn layers with
+    | error e => rw [hq] at h; cases h
+    | ok o' =>
+      rw [hq] at h
+      simp only [Except.ok.injEq, Prod.mk.injEq] at h
+      obtain ⟨rfl, rfl⟩ := h
+      exact ⟨rfl, C20_model_within_limit _ tn layers _ hq⟩
+
+/-- **The fused activation of a non-recurrent layer stays within the ACTIVATION default.**
+    User dictionary with a 4-entry default `[weight, bias, recurrent, a]` (numeric activation default
+    `a`), a registered non-recurrent class `cls` with a partial entry (0, 1 or 2 values), a layer of
+    that class selected by no pattern key: whatever the tuner answers, the `activation_quantizer`
+    written for that layer is an entry `(q, b)` of a configuration field of the activation position
+    with `b ≤ a` — however large the recurrent default is. -/
+theorem C20_fused_activation_within_activation_default (env : Env) (tn : Tune) (layers : List Layer)
+    (L : Limit) (o : QmOut) (h : quantizeModelUser env tn layers = .ok (L, o))
+    (w b r : LimVal) (a : Int)
+    (hdef : alookup "default" env.limit = some (.vals [w, b, r, .num a]))
+    (cls : String) (hreg : cls ∈ REGISTERED) (hseq : cls ∉ SEQUENCE) (l : List LimVal)
+    (hcls : alookup cls env.limit = some (.vals l)) (hl : l.length < 3)
+    (name : String) (dd : List (String × Option String)) (hx : (name, QEntry.dict dd) ∈ o.qdict)
+    (q : String) (hq : ("activation_quantizer", some q) ∈ dd)
+    (hlay : ∀ Ly ∈ layers, Ly.name = name →
+        Ly.cls = cls ∧ ∀ p ∈ limKeys env.limit, env.matches p Ly.name = false) :
+    ∃ bq field qd, bq ≤ a ∧ (field, (-1 : Int)) ∈ fieldIndexTable ∧
+      alookup field env.config = some qd ∧ (q, bq) ∈ qd := by
+  obtain ⟨hadj, hall⟩ := C20_model_within_user_limit env tn layers L o h
+  obtain ⟨d, hd, hlen, hkeys, _, _, hdoc⟩ := C20_adjust_limit_documented env.limit L hadj
+  -- the default list
+  have hd' : d = [w, b, r, .num a] := by
+    rw [hdef] at hd
+    simp [normDefault] at hd
+    exact hd.symm
+  obtain ⟨l', hl', hL⟩ := hdoc cls _ hreg hcls
+  cases hl'
+  -- the entry of the dictionary
+  obtain ⟨Ly, hLy, hn, suf, hsuf, key, bq, hkey, l2, lv, field, qd, hl2, hlv, hfi, hcfg, hmem, hok⟩ :=
+    hall (name, .dict dd) hx "activation_quantizer" q hq
+  have hsuf' : suf = "_activation" := by
+    simp [roleSuffix] at hsuf
+    exact hsuf.symm
+  subst hsuf'
+  obtain ⟨hc, hnm⟩ := hlay Ly hLy hn
+  -- no pattern matches: the key is the class
+  have hfm : firstMatch (fun p => env.matches p Ly.name) (limKeys L) = none := by
+    rw [hkeys]; exact firstMatch_none hnm
+  have hkey' : key = cls := by
+    simp only [resolveKey, hfm] at hkey
+    split at hkey
+    · rw [← hc]; exact (Option.some.inj hkey).symm
+    · cases hkey
+  subst hkey'
+  have hidx : (roleField false "_activation".toList).2 = -1 := by decide
+  rw [hidx] at hlv hfi
+  simp only at hl2
+  rw [hL] at hl2
+  cases hl2
+  have hact := ((C20_adjust_roles d hlen key l).1 hseq hl).2.2.2
+  rw [hact, hd'] at hlv
+  simp [defActivation] at hlv
+  subst hlv
+  exact ⟨bq, field, qd, hok, hfi, hcfg, hmem⟩
+
+private def padEnv : Env :=
+  { limit := [("default", .vals [.num 4, .num 4, .num 8, .num 2]), ("Dense", .vals [.num 4])],
+    config := [("kernel", [("binary", 1), ("quantized_bits(4,0,1)", 4)]),
+               ("bias", [("quantized_bits(4,0,1)", 4), ("quantized_bits(8,3,1)", 8)]),
+               ("activation", [("binary", 1), ("quantized_relu(3,1)", 3), ("quantized_relu(6,2)", 6)]),
+               ("linear", [("ternary", 2)])],
+    «matches» := fun _ _ => false,
+    choose := fun _ l => l.getLastD "" }
+
+/-- regression witness for "short entries are padded with `default[length:3]`": limit
+    `{"default": [4, 4, 8, 2], "Dense": [4]}`, a Dense/relu layer, a tuner that always takes the WIDEST
+    option offered: the hyper-model's Dense entry is `[4, 4, 2]` (not `[4, 4, 8]`) and the fused
+    activation is the 1-bit `binary`, the only configured activation within 2 bits -/
+theorem C20_short_entry_activation_regression :
+    (quantizeModelUser padEnv {} [{ name := "d0", cls := "Dense", act := "relu", size := 4 }]).toOption.map
+        (fun r => (alookup "Dense" r.1, alookup "d0" r.2.qdict)) =
+      some (some (.vals [.num 4, .num 4, .num 2]),
+            some (.dict [("kernel_quantizer", some "quantized_bits(4,0,1)"),
+                         ("bias_quantizer", some "quantized_bits(4,0,1)"),
+                         ("activation_quantizer", some "binary")])) := by decide
+
+/-- the hypotheses of `C20_fused_activation_within_activation_default` are met by the witness's input -/
+example : alookup "default" padEnv.limit = some (.vals [.num 4, .num 4, .num 8, .num 2]) ∧
+    "Dense" ∈ REGISTERED ∧ "Dense" ∉ SEQUENCE ∧ alookup "Dense" padEnv.limit = some (.vals [.num 4]) ∧
+    (∀ p ∈ limKeys padEnv.limit, padEnv.matches p "d0" = false) := by
+  refine ⟨rfl, by decide, by decide, rfl, fun _ _ => rfl⟩
+
 /-! ### non-vacuity of §1–§4 -/
 
 private def exEnv : Env :=
